@@ -797,6 +797,8 @@ pub enum Clean {
     BrokerShutdown,
     /// BrokerHandle::shutdown_connection
     ForcedByBroker,
+    /// two clean causes at the same moment: Handle::shutdown and BrokerHandle::shutdown
+    ShutdownAndBrokerShutdown,
 }
 
 #[derive(Clone, Debug, Default)]
@@ -896,6 +898,13 @@ pub fn run_program_opts(prog: &Program, sched_seed: u64, opts: &RunOpts, out: &m
                         w.clients[v].handle = None;
                     }
                     Clean::BrokerShutdown => {
+                        let mut bh = w.bh.clone();
+                        let _ = crate::bus::dx::now_or_never(async move { bh.shutdown().await });
+                    }
+                    Clean::ShutdownAndBrokerShutdown => {
+                        if let Some(h) = &w.clients[v].handle {
+                            h.shutdown();
+                        }
                         let mut bh = w.bh.clone();
                         let _ = crate::bus::dx::now_or_never(async move { bh.shutdown().await });
                     }
@@ -1003,7 +1012,7 @@ pub fn run_program_opts(prog: &Program, sched_seed: u64, opts: &RunOpts, out: &m
     }
     if faulty && end2 == RunEnd::Quiescent {
         // whatever happened to the victim, the broker must end up empty and stop when idle
-        let clean_all = opts.clean.map(|(_, c)| c == Clean::BrokerShutdown).unwrap_or(false);
+        let clean_all = opts.clean.map(|(_, c)| matches!(c, Clean::BrokerShutdown | Clean::ShutdownAndBrokerShutdown)).unwrap_or(false);
         if !clean_all {
             let mut bh = w.bh.clone();
             let _ = crate::bus::dx::now_or_never(async move { bh.shutdown_idle().await });
